@@ -118,7 +118,17 @@ META = {
               "free argument x 4 exit modes x 3 initial contexts, probes "
               "before and after every level -- thorough: sdram_alloc (x, y, "
               "app_id), read (x, p), BMP set_led (frame, board); quick: "
-              "sdram_alloc (x, app_id), read (y, p).  Unit 'application': "
+              "sdram_alloc (x, app_id), read (y, p).  Unit 're-entry' (both tiers; "
+              "MachineController sdram_alloc with blocks setting x, y, "
+              "app_id; send_signal with application() blocks; BMPController "
+              "set_led with blocks setting board): SAVED context objects "
+              "a, b and fresh contexts c entered as a-c-a, a then a again, "
+              "a-b-a-b, a-a-c, c-a-c-a-b-a, the innermost left normally, by "
+              "an exception caught right outside it or one passing through "
+              "two or three blocks; a probe after every enter and every "
+              "exit is held against a plain stack (enter pushes, exit pops "
+              "the top); application() blocks: one stop per exit, for the "
+              "block's own app.  Unit 'application': "
               "application() given its app_id positionally / by keyword / "
               "from the enclosing context, inside nothing / a context / "
               "another application block, containing nothing / a context / "
@@ -811,7 +821,7 @@ class Scenario(object):
             if a in explicit:
                 out[a] = explicit[a]
                 continue
-            for lv in sorted(active, reverse=True):
+            for lv in reversed(tuple(active)):
                 if a in self.levels[lv]:
                     out[a] = self.levels[lv][a]
                     break
@@ -822,7 +832,7 @@ class Scenario(object):
 
     def in_force(self, a, active):
         """Value of argument `a` set by the blocks / initial context."""
-        for lv in sorted(active, reverse=True):
+        for lv in reversed(tuple(active)):
             if a in self.levels[lv]:
                 return self.levels[lv][a]
         return self.init.get(a)
@@ -1388,6 +1398,101 @@ def h_discover(ctx, rows):
                                    (tags[0], (x, y), (ex, ey), times)))
 
 
+# saved context objects entered more than once: (object, blocks inside it,
+# raise Boom at the end of its body, catch Boom outside it).  "a", "b" are
+# created once and re-used; "c" is a fresh context at every entry.
+REENTRY = {
+    "a-c-a": [("a", [("c", [("a", [], 0, 0)], 0, 0)], 0, 0)],
+    "a-c-a, innermost left by exception":
+        [("a", [("c", [("a", [], 1, 1)], 0, 0)], 0, 0)],
+    "a-c-a, exception through a and c":
+        [("a", [("c", [("a", [], 1, 0)], 0, 1)], 0, 0)],
+    "a, then a again": [("a", [], 0, 0), ("a", [("c", [], 0, 0)], 0, 0)],
+    "a-b-a-b": [("a", [("b", [("a", [("b", [], 0, 0)], 0, 0)], 0, 0)], 0,
+                 0)],
+    "a-b-a-b, exception through b, a, b":
+        [("a", [("b", [("a", [("b", [], 1, 0)], 0, 0)], 0, 1)], 0, 0)],
+    "a-a-c": [("a", [("a", [("c", [], 0, 0)], 0, 0), ("c", [], 0, 0)], 0,
+               0)],
+    "c-a-c-a-b-a": [("c", [("a", [("c", [("a", [("b", [("a", [], 0, 0)], 0,
+                                                  0)], 0, 0)], 0, 0)], 0,
+                            0)], 0, 0)],
+}
+
+
+@stoppable
+def h_reentry(ctx, cls, name, sets, app):
+    """Saved context objects re-entered while active / after being left /
+    interleaved; a probe after every enter and every exit is held against a
+    plain stack (enter pushes the object's arguments, exit pops the top).
+    `sets`: the arguments the objects set; `app`: a, b are application()
+    blocks (their exits also send stop for their own app)."""
+    script = REENTRY[ctx.pick(sorted(REENTRY))]
+    pl = plan(cls, name)
+    levels = {o: {a: sym(ctx, a, o) for a in sets} for o in "abc"}
+    with Env(ctx) as env:
+        ctl = env.controller(cls, None, BMP_HOSTS[0])
+        s = Scenario(ctx, env, ctl, pl, INIT[cls], BMP_HOSTS[0])
+        s.levels = levels
+        if app:
+            saved = {o: ctl.application(levels[o]["app_id"]) for o in "ab"}
+        else:
+            saved = {o: ctl(**levels[o]) for o in "ab"}
+        model, stops = [], []
+        mark = len(env.wire)
+
+        def probe(what):
+            s.call(pl.probe_npos, {}, tuple(model), prefix="re-entry-")
+
+        def block(o, children, raise_here, catch_here):
+            cm = saved[o] if o in saved else ctl(**levels[o])
+            if o in saved and o in model:
+                ctx.witness("re-entered")
+            try:
+                try:
+                    with cm:
+                        model.append(o)
+                        probe("entered")
+                        for ch in children:
+                            block(*ch)
+                        if raise_here:
+                            raise Boom()
+                finally:
+                    # plain stack: leaving pops the top, whatever it is
+                    model.pop()
+                    if app and o in saved:
+                        stops.append(levels[o]["app_id"])
+            except Boom:
+                if not catch_here:
+                    raise
+                ctx.witness("left-by-exception")
+            probe("left")
+
+        outcome = "ok"
+        try:
+            probe("start")
+            for b in script:
+                block(*b)
+        except Exception as e:
+            outcome = type(e).__name__ + ": " + str(e)[:200]
+        ctx.observe(outcome)
+        if not ctx.prove(outcome == "ok", "call-failed", outcome):
+            return
+        ctx.prove(len(ctl._ContextMixin__context_stack) == 1,
+                  "context-stack-not-unwound")
+        if app:
+            # stop signals (signal number 2; the probes send "pause" = 6)
+            got = [q for _, q in env.wire[mark:]
+                   if int(q.cmd) == 22 and int(q.arg2 >> 16) == 2]
+            if ctx.prove(len(got) == len(stops),
+                         "application-stop-signal-count",
+                         (len(got), len(stops))):
+                prove_all(ctx, [((q.arg2 & 0xff) == a,
+                                 "application-stop-signal-wrong-app",
+                                 (i, q.arg2, a))
+                                for i, (q, a) in enumerate(zip(got, stops))])
+
+
 # ----------------------------------------------------------------------
 def covered_methods():
     s = specs()
@@ -1479,6 +1584,14 @@ def units(tier, seed):
                        h_history, dict(cls=cls, name=name, free=free,
                                        probes=probes),
                        split=3, witnesses=wit))
+    for cls, name, sets, app in (
+            (MC, "sdram_alloc", ("x", "y", "app_id"), False),
+            (MC, "send_signal", ("app_id",), True),
+            (BMP, "set_led", ("board",), False)):
+        us.append(Unit("re-entry %s.%s %s" % (
+            cls, name, "application() blocks" if app else ",".join(sets)),
+            h_reentry, dict(cls=cls, name=name, sets=sets, app=app),
+            witnesses=("sent", "re-entered", "left-by-exception")))
     us.append(Unit("application blocks", h_application, {}, split=2,
                    witnesses=("application-left", "left-by-exception")))
     if quick:
